@@ -45,7 +45,7 @@ func TestMain(m *testing.M) {
 		evid.Spec{Name: "TestReplay", Kind: "plain", QuickShards: 1, ThoroughShards: 1},
 		evid.Spec{Name: "TestEveryTruncation", Kind: "plain", QuickShards: 16, ThoroughShards: 16, TimeoutS: 3000},
 		evid.Spec{Name: "TestPropBitFlip", Kind: "rapid", Quick: 640, Thorough: 16000, QuickShards: 16, ThoroughShards: 16},
-		evid.Spec{Name: "TestPropLargeTruncation", Kind: "rapid", Quick: 64, Thorough: 2400, QuickShards: 16, ThoroughShards: 16},
+		evid.Spec{Name: "TestPropLargeTruncation", Kind: "rapid", Quick: 64, Thorough: 800, QuickShards: 16, ThoroughShards: 16},
 		evid.Spec{Name: "TestPropInjectedReadError", Kind: "rapid", Quick: 1600, Thorough: 40000, QuickShards: 16, ThoroughShards: 16},
 	)
 	evid.Commands("obiconvert", "obicount", "obigrep")
